@@ -18,11 +18,25 @@ inductive Basic
   | int | uint | uintptr | float32 | float64 | complex64 | complex128 | string | unsafePointer
   deriving DecidableEq, Repr
 
+/-- Kinds of types that have no addressable components for avo (interfaces,
+maps, channels, functions).  They occur as parameters, results, fields and
+elements and take part in the layout: they shift everything behind them. -/
+inductive Other
+  | eface | iface | map | chan | func
+  deriving DecidableEq, Repr
+
+/-- gc/amd64: an interface value is two words, the others one pointer. -/
+def Other.size : Other → Nat
+  | .eface | .iface => 16
+  | _ => 8
+
 mutual
-/-- Go types over which C07 quantifies.  `named` is a defined type wrapping its
-underlying type (avo treats it differently from the underlying type only in
-`toprimitive`).  Recursive types are represented by a finite unfolding: a path
-of length n inspects at most n levels and sizes never look through a pointer. -/
+/-- Go types over which C07 quantifies.  `named` is a defined type (`type T U`)
+or an alias (`type A = U`): both are transparent for layout and for every
+component operation, which look at `Underlying()` only.  `other` are the
+component-less kinds.  Recursive types are represented by a finite unfolding: a
+path of length n inspects at most n levels and sizes never look through a
+pointer. -/
 inductive Ty
   | basic (b : Basic)
   | ptr (elem : Ty)
@@ -30,6 +44,7 @@ inductive Ty
   | array (n : Nat) (elem : Ty)
   | struct (fs : Fields)
   | named (name : Name) (under : Ty)
+  | other (k : Other)
 inductive Fields
   | nil
   | cons (name : Name) (t : Ty) (rest : Fields)
@@ -89,6 +104,7 @@ def alignof : Ty → Nat
   | .array _ e => alignof e
   | .struct fs => fieldsAlign fs
   | .named _ u => alignof u
+  | .other _ => 8
 /-- the largest field alignment, at least 1 -/
 def fieldsAlign : Fields → Nat
   | .nil => 1
@@ -103,6 +119,7 @@ def sizeof : Ty → Nat
   | .array n e => n * sizeof e
   | .struct fs => alignUp (fieldsEnd fs 0) (fieldsAlign fs)
   | .named _ u => sizeof u
+  | .other k => k.size
 /-- End of the last field when the fields are laid out starting at running
 offset `offs` (`Offsetsof` + `Sizeof` of the last field), with gc's rule that a
 zero-size last field at a non-zero offset occupies one byte. -/
@@ -257,8 +274,10 @@ def navigateWith (lowerCheck : Bool) : Comp → List Step → Except Err Comp
 
 def navigate (c : Comp) (path : List Step) : Except Err Comp := navigateWith true c path
 
-/-- `toprimitive` (NB: looks at the type itself, not its underlying type). -/
-def toPrimitive : Ty → Option Basic
+/-- `toprimitive`: switches on `t.Underlying()` (since fad48e1), so a component
+of defined or alias scalar type resolves like its underlying type. -/
+def toPrimitive (t : Ty) : Option Basic :=
+  match t.under with
   | .basic b => if b.isString || b.isComplex then none else some b
   | .ptr _ => some .uintptr
   | _ => none
@@ -390,7 +409,7 @@ def asmAlign (offset a : Nat) : Nat := offset + (a - offset % a) % a
 
 inductive AsmKind
   | scalar (size : Nat)
-  | string | slice | complex | struct | array
+  | string | slice | complex | struct | array | iface
   deriving DecidableEq, Repr
 
 /-- `asmKindForType` on the underlying type. -/
@@ -404,6 +423,9 @@ def asmKind : Ty → AsmKind
   | .array .. => .array
   | .struct _ => .struct
   | .named _ u => asmKind u
+  | .other .eface => .iface
+  | .other .iface => .iface
+  | .other _ => .scalar 8
 
 structure AsmComp where
   suffix : Name
@@ -434,6 +456,12 @@ def comps : Ty → Name → Nat → List AsmComp
       (List.range n).flatMap (fun i => comps e (suf ++ '_' :: Nat.toDigits 10 i) (off + i * asmElemOff e))
   | .struct fs, suf, off => ⟨suf, .struct, off, sizeof (.struct fs)⟩ :: compsFields fs suf off 0
   | .named _ u, suf, off => comps u suf off
+  | .other k, suf, off =>
+    ⟨suf, asmKind (.other k), off, k.size⟩ ::
+      (match k with
+       | .eface => [⟨suf ++ "_type".toList, .scalar 8, off, 8⟩, ⟨suf ++ "_data".toList, .scalar 8, off + 8, 8⟩]
+       | .iface => [⟨suf ++ "_itable".toList, .scalar 8, off, 8⟩, ⟨suf ++ "_data".toList, .scalar 8, off + 8, 8⟩]
+       | _ => [])
 /-- the struct case: fields at `off + Offsetsof(fields)[i]`, `run` is the running offset -/
 def compsFields : Fields → Name → Nat → Nat → List AsmComp
   | .nil, _, _, _ => []
@@ -577,11 +605,13 @@ def selTops (s : Sig) (isRet : Bool) : Sel → List AsmTop
   | .at i => if 0 ≤ i then ((asmTops s isRet)[i.toNat]?).toList else []
   | .name n => if n = [] then [] else (asmTops s isRet).filter (fun t => t.name = n)
 
-/-- The basic type avo must report for a component of Go type `t`. -/
+/-- The basic type avo must report for a component of Go type `t`: the
+underlying basic kind; for a pointer any pointer-sized integer-class kind (the
+property does not say which of them stands for a pointer). -/
 def basicFor (t : Ty) (b : Basic) : Prop :=
   match t.under with
   | .basic b' => b = b' ∧ b'.isString = false ∧ b'.isComplex = false
-  | .ptr _ => b = .uintptr
+  | .ptr _ => b = .uintptr ∨ b = .unsafePointer ∨ b = .uint64
   | _ => False
 
 instance (t b) : Decidable (basicFor t b) := by
@@ -597,23 +627,67 @@ def splitLastDeref : List Step → Option (List Step × Name × List Step)
       | .deref r => some ([], r, ss)
       | _ => none
 
-/-- The component of Go type `root` selected by the deref-free `path`, placed at
-`disp` relative to the start of `root`, is the toolchain's scalar component with
-the path's name suffix, and the path exists in the type. -/
+/-- The fields with the given name, each at asmdecl's `off + Offsetsof(fields)[i]`
+(`run` is the running offset).  Go allows several fields of one struct to share
+a name only for the blank name `_`. -/
+def fieldsNamed : Fields → Name → Nat → List (Nat × Ty)
+  | .nil, _, _ => []
+  | .cons n t r, name, run =>
+    let o := alignUp run (alignof t)
+    (if n = name then [(o, t)] else []) ++ fieldsNamed r name (o + sizeof t)
+
+/-- The sub-components one step may denote, read off asmdecl's
+`appendComponentsRecursive` (tree form): relative offset and Go type.  A list
+because a blank field name may denote several fields; every other step denotes
+at most one component. -/
+def stepComps (t : Ty) : Step → List (Nat × Ty)
+  | .base => match t.under with
+    | .slice _ => [(0, .basic .uintptr)]
+    | .basic .string => [(0, .basic .uintptr)]
+    | _ => []
+  | .len => match t.under with
+    | .slice _ => [(8, .basic .int)]
+    | .basic .string => [(8, .basic .int)]
+    | _ => []
+  | .cap => match t.under with
+    | .slice _ => [(8 + 8, .basic .int)]
+    | _ => []
+  | .real => match t.under with
+    | .basic .complex64 => [(0, .basic .float32)]
+    | .basic .complex128 => [(0, .basic .float64)]
+    | _ => []
+  | .imag => match t.under with
+    | .basic .complex64 => [(4, .basic .float32)]
+    | .basic .complex128 => [(8, .basic .float64)]
+    | _ => []
+  | .index i => match t.under with
+    | .array n e => if 0 ≤ i ∧ i < (n : Int) then [(i.toNat * asmElemOff e, e)] else []
+    | _ => []
+  | .field name => match t.under with
+    | .struct fs => fieldsNamed fs name 0
+    | _ => []
+  | .deref _ => []
+
+/-- The components a `Dereference`-free path may denote inside a value of type
+`t`: offset from the start of the value, and Go type. -/
+def pathComps : Ty → List Step → List (Nat × Ty)
+  | t, [] => [(0, t)]
+  | t, s :: ss => (stepComps t s).flatMap (fun p => (pathComps p.2 ss).map (fun q => (p.1 + q.1, q.2)))
+
+/-- The address `disp` (relative to the start of a value of Go type `root`) and
+basic type `b` are right for the deref-free `path`:
+ * `disp` is the offset of a component the path denotes in the toolchain's
+   layout of `root` (the offset is pinned: the tree is walked step by step, field
+   by field — not merely "some variable with that flattened name"), and the
+   component is a scalar of basic type `b`;
+ * the flattened name `pathSuffix path` is, at this offset and with this size, a
+   scalar in `go vet`'s table for `root`. -/
 def InLayout (root : Ty) (path : List Step) (disp : Int) (b : Basic) : Prop :=
-  (∃ t, pathTy root path = some t ∧ basicFor t b) ∧ 0 ≤ disp ∧
+  (∃ p ∈ pathComps root path, (p.1 : Int) = disp ∧ basicFor p.2 b) ∧ 0 ≤ disp ∧
     (⟨pathSuffix path, .scalar b.size, disp.toNat, b.size⟩ : AsmComp) ∈ comps root [] 0
 
 instance (root path disp b) : Decidable (InLayout root path disp b) := by
-  unfold InLayout
-  have : Decidable (∃ t, pathTy root path = some t ∧ basicFor t b) := by
-    cases h : pathTy root path with
-    | none => exact isFalse (by simp)
-    | some t =>
-      by_cases hb : basicFor t b
-      · exact isTrue ⟨t, rfl, hb⟩
-      · exact isFalse (by simp [hb])
-  exact inferInstance
+  unfold InLayout; exact inferInstance
 
 /-- **The property for one resolved address.** -/
 def ResolveSpec (s : Sig) (isRet : Bool) (sel : Sel) (path : List Step) (r : Resolved) : Prop :=
@@ -653,7 +727,7 @@ def Sig.groups (s : Sig) (isRet : Bool) : List Group := if isRet then s.results 
 
 /-- The selector and path exist (in every variable the selector may denote: only
 the blank name `_` can denote several) and end at a scalar avo undertakes to
-resolve (basic non-string non-complex, or pointer; defined types are left free). -/
+resolve (underlying type basic non-string non-complex, or pointer). -/
 def MustResolve (s : Sig) (isRet : Bool) (sel : Sel) (path : List Step) : Prop :=
   (match sel with
    | .at _ => True
